@@ -518,10 +518,15 @@ func runC19(c *eng.Ctx) {
 	// ---- 8. Pipeline.Execute recover ---------------------------------------------------------------------
 	c.Rule("ORDER", plT+".Execute{recover->complete(err)}", func() {
 		f := c.Fn(plT + ".Execute")
-		if len(f.AnonFuncs) == 0 {
-			c.Undecided("no deferred closure in pipeline.Execute")
+		var rec *ssa.Function
+		for _, g := range localFuncs(f) { // the deferred closure, or the method it was turned into
+			if len(p.SitesDirect(g, eng.CallTo("builtin:recover"))) > 0 {
+				rec = g
+			}
 		}
-		rec := f.AnonFuncs[0]
+		if rec == nil {
+			c.Undecided("no deferred recover function in pipeline.Execute")
+		}
 		r := c.One(rec, eng.CallTo("builtin:recover"), "recover()")
 		for i, s := range c.Some(rec, eng.CallTo(smT+".complete"), "sm.complete(err)") {
 			arg := eng.CallArgs(s.Instr.(*ssa.Call))[0]
@@ -662,8 +667,8 @@ func runC19(c *eng.Ctx) {
 		}
 		s := c.One(cb, eng.CallTo(lecT+".SendResponse"), "SendResponse(err)")
 		arg := eng.CallArgs(s.Instr.(*ssa.Call))[0]
-		c.Check(arg == ssa.Value(cb.Params[0]), "err-forwarded", s.Instr, cb, "the pipeline's completion error is what the leaf responds with", "passes "+p.Desc(arg))
-		c.Check(p.MustPass(cb, eng.CallTo(lecT+".SendResponse"), 0), "always-responds", s.Instr, cb, "every path of the callback sends the response", "a path skips SendResponse")
+		c.Check(eng.UpParam(arg) == ssa.Value(cb.Params[0]), "err-forwarded", s.Instr, cb, "the pipeline's completion error is what the leaf responds with", "passes "+p.DescUp(eng.Unwrap(arg)))
+		c.Check(p.MustPass(cb, eng.CallTo(lecT+".SendResponse"), 2), "always-responds", s.Instr, cb, "every path of the callback sends the response", "a path skips SendResponse")
 		mk := c.One(f, eng.CallTo("var:query.newExecutePipelineFn"), "newExecutePipelineFn").Instr.(*ssa.Call)
 		a := eng.CallArgs(mk)
 		c.Check(strings.HasSuffix(p.Desc(a[1]), p.FuncKey(cb)), "callback-registered", mk, f, "that closure is the pipeline's completion callback", "registered "+p.Desc(a[1]))
